@@ -1237,8 +1237,30 @@ func (tr *translator) stmts(list []ast.Stmt, c ctl) string {
 		out := ""
 		for _, sp := range gd.Specs {
 			vs := sp.(*ast.ValueSpec)
-			if vs.Type == nil || len(vs.Values) != 0 {
-				fail("var with initialiser")
+			if len(vs.Values) != 0 {
+				// var x T = e  /  var x = e
+				if len(vs.Values) != len(vs.Names) {
+					fail("var with a multi-valued initialiser")
+				}
+				for i, nm := range vs.Names {
+					want := gt("")
+					if vs.Type != nil {
+						want = goTypeToGt(tr.render(vs.Type), "")
+						if want == "" {
+							fail("var of type %s", tr.render(vs.Type))
+						}
+					}
+					term, t := tr.expr(vs.Values[i], want)
+					if t == tNil {
+						fail("nil without a type")
+					}
+					tr.vars[nm.Name] = t
+					out += tr.flush() + "let " + nm.Name + " : " + t.lean() + " := " + term + "\n"
+				}
+				continue
+			}
+			if vs.Type == nil {
+				fail("var without a type")
 			}
 			t := goTypeToGt(tr.render(vs.Type), "")
 			z := zeroOf(t)
@@ -1276,7 +1298,9 @@ func (tr *translator) stmts(list []ast.Stmt, c ctl) string {
 		return tr.assign(x) + cont()
 	case *ast.IfStmt:
 		if x.Init != nil {
-			fail("if with an init statement")
+			y := *x
+			y.Init = nil
+			return tr.stmts(append([]ast.Stmt{x.Init, &y}, rest...), c)
 		}
 		var brs []branch
 		var cur ast.Stmt = x
@@ -1692,11 +1716,35 @@ func genVisitor(fset *token.FileSet, decls map[string]*ast.FuncDecl, declFile ma
 	for _, c := range tokenConsts {
 		tr.consts["JsonQueryParser"+c[0]] = c[1]
 	}
-	var keys []string
+	// the visitor = the methods of JsonQueryVisitorImpl and objStack plus the plain functions of the package they call
+	// (transitively), in whichever hand-written file of the package they live
+	libFuncs := map[string]bool{"newNestedError": true}
+	sel := map[string]bool{}
+	var work []string
 	for k, d := range decls {
-		if declFile[k] == "parser/jsonquery_visitor_impl.go" && d.Body != nil {
-			keys = append(keys, k)
+		if o := recvTypeName(d, render); (o == "JsonQueryVisitorImpl" || o == "objStack" || k == "NewJsonQueryVisitorImpl") && d.Body != nil && strings.HasPrefix(declFile[k], "parser/") {
+			sel[k] = true
+			work = append(work, k)
 		}
+	}
+	for len(work) > 0 {
+		k := work[len(work)-1]
+		work = work[:len(work)-1]
+		ast.Inspect(decls[k].Body, func(n ast.Node) bool {
+			if c, ok := n.(*ast.CallExpr); ok {
+				if id, ok := c.Fun.(*ast.Ident); ok && !libFuncs[id.Name] && !sel[id.Name] {
+					if d, ok := decls[id.Name]; ok && d.Recv == nil && d.Body != nil && strings.HasPrefix(declFile[id.Name], "parser/") {
+						sel[id.Name] = true
+						work = append(work, id.Name)
+					}
+				}
+			}
+			return true
+		})
+	}
+	var keys []string
+	for k := range sel {
+		keys = append(keys, k)
 	}
 	sort.Strings(keys)
 	var status [][2]string
